@@ -305,4 +305,23 @@ class C15(Spec):
         return ops
 
 
-PROPS = {"C15": C15(), "C18": C18(), "C14": C14(), "C06": C06(), "C07": C07(), "C10": C10(), "C08": C08(), "C09": C09(), "C11": C11(), "C02": C02(), "C03": C03(), "C13": C13(), "C16": C16(), "C01": C01(), "C04": C04(), "C05": C05(), "C12": C12()}
+class C17(Spec):
+    lean_modules = ["Varint.Props.C17"]
+    diff_is_violation = True
+    rule = ("2..16 threads share six read-only input arrays (full range, ascending, few distinct, clustered with outliers, "
+            "dense small, doubles) of 1..2000 (thorough: 70000) values and each owns its output buffers; every thread makes "
+            "40..2000 calls picked by its own PRNG from 18 entry groups (tagged / external / chained / chained-simple scalars, "
+            "delta, FOR, PFOR, dict, RLE, group, Elias gamma/delta, BP128 32/64, float, adaptive, packed 12-bit arrays and "
+            "bitstreams on private storage); each result digest is compared with the same call made alone; built with "
+            "ThreadSanitizer (halt on the first report), ASan+UBSan and -O2")
+    assumptions = ["ThreadSanitizer observes the schedules that happen; the theorem covers all schedules of the abstract machine, "
+                   "under the premise (no access outside the arguments) that TSan and no_shared_statics support"]
+
+    def configs(self, tier):
+        return ["tsan", "asan", "o2"]
+
+    def gen(self, rng, tier):
+        return genops.gen_mt(rng, tier)
+
+
+PROPS = {"C17": C17(), "C15": C15(), "C18": C18(), "C14": C14(), "C06": C06(), "C07": C07(), "C10": C10(), "C08": C08(), "C09": C09(), "C11": C11(), "C02": C02(), "C03": C03(), "C13": C13(), "C16": C16(), "C01": C01(), "C04": C04(), "C05": C05(), "C12": C12()}
